@@ -27,7 +27,7 @@ fn spec(t: Tier) -> Spec {
     Spec {
         id: "C07",
         level: "exploration",
-        rule: format!("every name of <= {} characters over {:?} (except . and ..) is created as a file (t/f/NAME), as a directory holding another such name (t/d/NAME/NEXT), and used as a starting point (as given, and for directories with a trailing '/' under -P, -H and -L; the starting-point lists also go through the real pipeline); find_main's -print0 and -print output must be, byte for byte, the starting point as given + '/'-joined names + one delimiter per entry and nothing else (reference list built from the names, sequence under -sorted); the same tree goes through a real `find -print0 | xargs -0 vrec LOG` pipeline and the recorder's argv must be that list exactly, each path once; extra slices: a path with a newline followed by >1024 bytes through real stdout (pipe and file), and a listing arranged so that a multi-byte character straddles the 8192-byte buffer refill of xargs -0; non-trivial = name containing a character other than 'a' and '.'", maxlen(t), ALPHA),
+        rule: format!("every name of <= {} characters over {:?} (except . and ..) is created as a file (t/f/NAME), as a directory holding another such name (t/d/NAME/NEXT), and used as a starting point (as given, and for directories respelled NAME/, NAME//, NAME/., ./NAME, .//NAME/ under -P, -H and -L (printed as given, the entry below joined with exactly one more '/' unless the spelling already ends in one); the starting-point lists also go through the real pipeline); find_main's -print0 and -print output must be, byte for byte, the starting point as given + '/'-joined names + one delimiter per entry and nothing else (reference list built from the names, sequence under -sorted); the same tree goes through a real `find -print0 | xargs -0 vrec LOG` pipeline and the recorder's argv must be that list exactly, each path once; extra slices: a path with a newline followed by >1024 bytes through real stdout (pipe and file), and a listing arranged so that a multi-byte character straddles the 8192-byte buffer refill of xargs -0; non-trivial = name containing a character other than 'a' and '.'", maxlen(t), ALPHA),
         bound: json!({"max_name_len": maxlen(t), "alphabet": ALPHA}),
         assumptions: vec!["names are valid UTF-8 (the statement's scope); tmpfs".into()],
         shards: 0,
@@ -218,26 +218,30 @@ fn run(ctx: &mut Ctx) {
         let td = sbx.join("t/d");
         std::env::set_current_dir(&td).unwrap();
         for flag in ["-P", "-H", "-L"] {
-            for chunk in usable.chunks(40) {
-                let spelled: Vec<String> = chunk.iter().map(|n| format!("{n}/")).collect();
-                let mut args: Vec<&str> = vec![flag];
-                args.extend(spelled.iter().map(|s| s.as_str()));
-                args.extend(["-sorted", "-print0"]);
-                let got = run_find(&args);
-                ctx.rep.evaluations += 1;
-                let mut want_list: Vec<String> = vec![];
-                for n in chunk {
-                    let i = batch.iter().position(|x| &x == n).unwrap();
-                    want_list.push(format!("{n}/"));
-                    want_list.push(format!("{n}/{}", batch[(i + 1) % batch.len()]));
-                }
-                let want = joined(&want_list, 0);
-                if got.code != Ok(0) || got.out != want {
-                    ctx.rep.violation(
-                        &format!("C07 starting point spelled with a trailing '/' not printed exactly as given [{flag}]"),
-                        format!("status {:?}; {}", got.code, first_diff(&want, &got.out)),
-                        json!({"prop":"C07","kind":"roots","roots":spelled,"flag":flag}),
-                    );
+            // (prefix, suffix) spellings of the directory NAME: NAME/  NAME//  NAME/.  ./NAME  .//NAME/
+            for (pre, suf) in [("", "/"), ("", "//"), ("", "/."), ("./", ""), (".//", "/")] {
+                for chunk in usable.chunks(40) {
+                    let spelled: Vec<String> = chunk.iter().map(|n| format!("{pre}{n}{suf}")).collect();
+                    let mut args: Vec<&str> = vec![flag];
+                    args.extend(spelled.iter().map(|s| s.as_str()));
+                    args.extend(["-sorted", "-print0"]);
+                    let got = run_find(&args);
+                    ctx.rep.evaluations += 1;
+                    ctx.rep.count("directories_as_respelled_starting_points", chunk.len() as u64);
+                    let mut want_list: Vec<String> = vec![];
+                    for (n, sp) in chunk.iter().zip(&spelled) {
+                        let i = batch.iter().position(|x| &x == n).unwrap();
+                        want_list.push(sp.clone());
+                        want_list.push(format!("{sp}{}{}", if sp.ends_with('/') { "" } else { "/" }, batch[(i + 1) % batch.len()]));
+                    }
+                    let want = joined(&want_list, 0);
+                    if got.code != Ok(0) || got.out != want {
+                        ctx.rep.violation(
+                            &format!("C07 starting point spelled {pre}NAME{suf} not printed exactly as given [{flag}]"),
+                            format!("status {:?}; {}", got.code, first_diff(&want, &got.out)),
+                            json!({"prop":"C07","kind":"roots","roots":spelled,"flag":flag}),
+                        );
+                    }
                 }
             }
         }
